@@ -59,6 +59,7 @@ type registration struct {
 // invocation tracks in-progress invocation.
 type invocation struct {
 	callID      requestID
+	reg         *registration
 	callee      *wamp.Session
 	canceled    bool
 	inProgress  bool
@@ -688,25 +689,32 @@ func (d *dealer) syncMatchProcedure(procedure wamp.URI) (*registration, bool) {
 }
 
 func (d *dealer) syncCall(caller *wamp.Session, msg *wamp.Call) {
-	reg, ok := d.syncMatchProcedure(msg.Procedure)
-	if !ok || len(reg.callees) == 0 {
-		// If this is a later chunk of a pending progressive call, whose
-		// procedure is gone or which names another procedure, the call ends
-		// here with that error (and once only, which syncCancel ensures).
-		pendingID := requestID{session: caller.ID, request: msg.Request}
-		if _, pending := d.invocationByCall[pendingID]; pending {
-			d.syncCancel(caller, &wamp.Cancel{Request: msg.Request},
-				wamp.CancelModeKillNoWait, wamp.ErrNoSuchProcedure, nil)
+	callReqID := requestID{
+		session: caller.ID,
+		request: msg.Request,
+	}
+
+	// A later chunk of a pending progressive call belongs to the registration
+	// that the first chunk was routed to, whatever its URI resolves to now:
+	// it goes to the same callee under the same registration ID, also after
+	// that callee has unregistered.
+	var reg *registration
+	storedInvocationID, ok := d.invocationByCall[callReqID]
+	if ok {
+		reg = d.invocations[storedInvocationID].reg
+	} else {
+		var found bool
+		reg, found = d.syncMatchProcedure(msg.Procedure)
+		if !found || len(reg.callees) == 0 {
+			// If no registered procedure, send error.
+			d.trySend(caller, &wamp.Error{
+				Type:    msg.MessageType(),
+				Request: msg.Request,
+				Details: wamp.Dict{},
+				Error:   wamp.ErrNoSuchProcedure,
+			})
 			return
 		}
-		// If no registered procedure, send error.
-		d.trySend(caller, &wamp.Error{
-			Type:    msg.MessageType(),
-			Request: msg.Request,
-			Details: wamp.Dict{},
-			Error:   wamp.ErrNoSuchProcedure,
-		})
-		return
 	}
 
 	var callee *wamp.Session
@@ -714,12 +722,6 @@ func (d *dealer) syncCall(caller *wamp.Session, msg *wamp.Call) {
 	var invk *invocation
 	var timeout int64
 
-	callReqID := requestID{
-		session: caller.ID,
-		request: msg.Request,
-	}
-
-	storedInvocationID, ok := d.invocationByCall[callReqID]
 	isInProgress, _ := msg.Options[wamp.OptProgress].(bool)
 	details := wamp.Dict{}
 	details[wamp.OptProgress] = isInProgress
@@ -771,6 +773,7 @@ func (d *dealer) syncCall(caller *wamp.Session, msg *wamp.Call) {
 		}
 		invk = &invocation{
 			callID:     reqID,
+			reg:        reg,
 			callee:     callee,
 			inProgress: isInProgress,
 			options:    msg.Options,
